@@ -3,7 +3,7 @@ from __future__ import annotations
 import ast
 import z3
 
-from .values import (SV, SInt, SBool, SStr, Obj, PyList, PySet, PyDict, ExtClass, FuncVal, BoundMethod,
+from .values import (SV, SInt, SBool, SStr, STerm, Obj, PyList, PySet, PyDict, ExtClass, FuncVal, BoundMethod,
                      Builtin, GenObj, Opaque, Havoc, ModuleVal, SymStream)
 from .ctx import Unsupported, PathEnd, Infeasible
 from .repo import ClassInfo, Loader
@@ -200,6 +200,8 @@ class Interp:
             return True
         if isinstance(v, (ClassInfo, ExtClass, FuncVal, BoundMethod, Builtin, GenObj, ModuleVal)):
             return True
+        if isinstance(v, Opaque) and hasattr(v, "m_truth"):
+            return self.truth(v.m_truth(self))
         if isinstance(v, Opaque):
             hook = self.spec.opaque_hooks.get("truth")
             if hook:
@@ -341,6 +343,8 @@ class Interp:
         m = method_of(self, v, name)
         if m is not None:
             return m
+        if isinstance(v, Opaque) and hasattr(v, "m_getattr"):
+            return v.m_getattr(self, name)
         if isinstance(v, Opaque):
             hook = self.spec.opaque_hooks.get("getattr")
             if hook:
@@ -388,6 +392,8 @@ class Interp:
             v.class_attr_vals[name] = val
             self.ctx.effect("class_attr_write", (v.name, name))
             return
+        if isinstance(v, Opaque) and hasattr(v, "m_setattr"):
+            return v.m_setattr(self, name, val)
         if isinstance(v, Opaque):
             hook = self.spec.opaque_hooks.get("setattr")
             if hook:
@@ -437,6 +443,8 @@ class Interp:
             if isinstance(cls, (ClassInfo, ExtClass)):
                 return self.is_subclass(v.cls, cls)
             raise Unsupported(f"isinstance(.., {cls!r})")
+        if isinstance(v, Opaque) and hasattr(v, "m_isinstance"):
+            return v.m_isinstance(self, cls)
         if isinstance(v, Opaque):
             hook = self.spec.opaque_hooks.get("isinstance")
             if hook:
@@ -471,6 +479,9 @@ class Interp:
         """`a is b`"""
         a = self.norm_cls(a)
         b = self.norm_cls(b)
+        if isinstance(a, Obj) and isinstance(b, Obj) and a is not b and "__ident__" in a.fields and "__ident__" in b.fields \
+                and a.fields["__ident__"].sort() == b.fields["__ident__"].sort():
+            return wrap_bool(a.fields["__ident__"] == b.fields["__ident__"])
         if isinstance(a, (Obj, Opaque, PyList, PyDict, PySet, GenObj, FuncVal, ClassInfo, SymStream)) or \
            isinstance(b, (Obj, Opaque, PyList, PyDict, PySet, GenObj, FuncVal, ClassInfo, SymStream)):
             return a is b
@@ -478,6 +489,8 @@ class Interp:
             if isinstance(a, SV) or isinstance(b, SV):
                 return False
             return a is b
+        if isinstance(a, STerm) or isinstance(b, STerm):
+            return self.equals(a, b)
         if isinstance(a, ExtClass) and isinstance(b, ExtClass):
             return a.name == b.name
         if isinstance(a, bool) or isinstance(b, bool) or isinstance(a, SBool) or isinstance(b, SBool):
@@ -514,12 +527,20 @@ class Interp:
             if f and f[1] == "method":
                 return self.call_func(f[2], [b, a], {})
             return False
+        if isinstance(a, Opaque) and hasattr(a, "m_eq"):
+            return a.m_eq(self, b)
+        if isinstance(b, Opaque) and hasattr(b, "m_eq"):
+            return b.m_eq(self, a)
         if isinstance(a, (Obj, Opaque)) or isinstance(b, (Obj, Opaque)):
             if isinstance(a, Opaque) or isinstance(b, Opaque):
                 hook = self.spec.opaque_hooks.get("eq")
                 if hook:
                     return hook(self, a, b)
             return a is b
+        if isinstance(a, STerm) or isinstance(b, STerm):
+            if isinstance(a, STerm) and isinstance(b, STerm) and a.t.sort() == b.t.sort():
+                return wrap_bool(a.t == b.t)
+            return False
         if isinstance(a, (SInt, SBool)) or isinstance(b, (SInt, SBool)):
             if isinstance(a, (int, bool, SInt, SBool)) and isinstance(b, (int, bool, SInt, SBool)):
                 return wrap_bool(zint(a) == zint(b))
@@ -632,6 +653,8 @@ class Interp:
                 return self.call_func(f[2], [container, item], {})
             if "__data__" in container.fields:
                 return self.contains(container.fields["__data__"], item)
+        if isinstance(container, Opaque) and hasattr(container, "m_contains"):
+            return container.m_contains(self, item)
         if isinstance(container, Opaque):
             hook = self.spec.opaque_hooks.get("contains")
             if hook:
